@@ -53,7 +53,7 @@ func c12Less(a, b c12Val) bool {
 }
 
 func checkC12Srv(job *Job, res *Result) {
-	res.Rule = "SEQ over inputs: all well-formed patterns of length <= 3 over 9 bytes x 8 pattern consumers; WHERE f min max for all pairs of 13 bounds x open/closed, WHERE f op v for 6 operators x 13 values, WHEREIN subsets of size 1-2, on 18 objects of every value kind (incl. strings that differ only in case or after a common case-insensitive prefix); COUNT vs IDS and DESC vs ASC for every filter, with and without LIMIT, on a collection mixing strings and geometries; distinct = distinct (consumer / filter form, expected result)"
+	res.Rule = "SEQ over inputs: all well-formed patterns of length <= 3 over 9 bytes x 8 pattern consumers; WHERE f min max for all pairs of 13 bounds x open/closed, WHERE f op v for 6 operators x 13 values, WHEREIN subsets of size 1-2, on 18 objects of every value kind (incl. strings that differ only in case or after a common case-insensitive prefix); COUNT vs IDS and DESC vs ASC for every filter, with and without LIMIT, on a collection mixing strings and geometries in three states (built; ids changed kind and values repeated; after deletions); every SEARCH value stored twice; distinct = distinct (consumer / filter form, expected result)"
 	res.Assumptions = append(res.Assumptions, "malformed patterns (glob.Match reports an error) are skipped", "NaN is excluded from the comparison matrix (its order is not documented); strings compare case-insensitively; a missing field reads as 0")
 	pa := []byte{'a', 'b', '*', '?', '[', ']', '\\', '^', '-'}
 	var pats []string
@@ -82,10 +82,11 @@ func checkC12Srv(job *Job, res *Result) {
 		fence := []string{"NEARBY", "k9", "FENCE", "POINT", "50", "50", "100"}
 		setup := func() {
 			for i, n := range c12Names {
-				c.Do("SET", "gk", n, "POINT", "1", fmt.Sprint(i))                // ids
-				c.Do("SET", "vk", "id"+fmt.Sprint(100+i), "STRING", n)           // values (SEARCH matches values)
-				c.Do("SET", n, "x", "POINT", "1", "1")                           // keys
-				c.Do(append([]string{"SETCHAN", n}, fence...)...)                // channels
+				c.Do("SET", "gk", n, "POINT", "1", fmt.Sprint(i))                          // ids
+				c.Do("SET", "vk", "id"+fmt.Sprint(100+i), "STRING", n)                     // values (SEARCH matches values)
+				c.Do("SET", "vk", "it"+fmt.Sprint(100+i), "STRING", n)                     // every value twice
+				c.Do("SET", n, "x", "POINT", "1", "1")                                     // keys
+				c.Do(append([]string{"SETCHAN", n}, fence...)...)                          // channels
 				ch.Do(append([]string{"SETHOOK", n, "http://127.0.0.1:1/x"}, fence...)...) // hooks
 			}
 		}
@@ -158,10 +159,10 @@ func checkC12Srv(job *Job, res *Result) {
 			var ps []pair
 			for i, n := range c12Names {
 				if mGlob(p, n) {
-					ps = append(ps, pair{n, "id" + fmt.Sprint(100+i)})
+					ps = append(ps, pair{n, "id" + fmt.Sprint(100+i)}, pair{n, "it" + fmt.Sprint(100+i)})
 				}
 			}
-			sort.Slice(ps, func(i, j int) bool { return ps[i].v < ps[j].v })
+			sort.Slice(ps, func(i, j int) bool { return ps[i].v < ps[j].v || ps[i].v == ps[j].v && ps[i].id < ps[j].id })
 			for _, e := range ps {
 				svWant = append(svWant, e.id)
 			}
@@ -282,52 +283,68 @@ func checkC12Srv(job *Job, res *Result) {
 				c.Do("SET", "mix", fmt.Sprintf("m%d", i), "FIELD", "f", fmt.Sprint(i%3), "STRING", fmt.Sprintf("s%d", 9-i))
 			}
 		}
-		filters := [][]string{nil, {"MATCH", "m*"}, {"MATCH", "m1"}, {"WHERE", "f", "1", "2"}, {"WHEREIN", "f", "1", "0"}, {"MATCH", "m?", "WHERE", "f", "0", "1"},
+		filters := [][]string{nil, {"MATCH", "m*"}, {"MATCH", "m1"}, {"MATCH", "s6"}, {"MATCH", "s*"}, {"WHERE", "f", "1", "2"}, {"WHEREIN", "f", "1", "0"}, {"MATCH", "m?", "WHERE", "f", "0", "1"},
 			{"WHEREEVAL", "return FIELDS.f == 1", "0"}}
-		for _, cmd := range []string{"SCAN", "SEARCH", "WITHIN", "INTERSECTS", "NEARBY"} {
-			area := []string{}
-			switch cmd {
-			case "WITHIN", "INTERSECTS":
-				area = []string{"BOUNDS", "-90", "-180", "90", "180"}
-			case "NEARBY":
-				area = []string{"POINT", "0", "0"}
+		// the same questions in three states of the collection: as built; after ids
+		// changed kind (string <-> geometry) and two strings share a value; after deletions
+		for phase := 0; phase < 3; phase++ {
+			switch phase {
+			case 1:
+				c.Do("SET", "mix", "m0", "FIELD", "f", "0", "STRING", "s6")
+				c.Do("SET", "mix", "m1", "FIELD", "f", "1", "POINT", "1", "1")
+				c.Do("SET", "mix", "m2", "FIELD", "f", "2", "STRING", "s6")
+				c.Do("SET", "mix", "m5", "FIELD", "f", "2", "STRING", "s4")
+			case 2:
+				c.Do("DEL", "mix", "m0")
+				c.Do("DEL", "mix", "m4")
+				c.Do("SET", "mix", "m7", "FIELD", "f", "1", "POINT", "7", "1")
+				c.Do("SET", "mix", "m9", "FIELD", "f", "1", "STRING", "s6")
 			}
-			for _, f := range filters {
-				for _, lim := range []string{"", "1", "2", "3", "100"} {
-					caseNo++
-					if caseNo%job.NShards != job.Shard {
-						continue
-					}
-					base := []string{cmd, "mix"}
-					if lim != "" {
-						base = append(base, "LIMIT", lim)
-					}
-					base = append(base, f...)
-					ids := listOf(c.Do(append(append(append([]string{}, base...), "IDS"), area...)...))
-					cv := c.Do(append(append(append([]string{}, base...), "COUNT"), area...)...)
-					res.Evaluations++
-					res.DistinctS(fmt.Sprint("count", cmd, len(f), lim, len(ids)))
-					if cv.String() != ":"+strconv.Itoa(len(ids)) {
-						ftag := "nofilter"
-						if len(f) > 0 {
-							ftag = strings.ToLower(f[0])
+			for _, cmd := range []string{"SCAN", "SEARCH", "WITHIN", "INTERSECTS", "NEARBY"} {
+				area := []string{}
+				switch cmd {
+				case "WITHIN", "INTERSECTS":
+					area = []string{"BOUNDS", "-90", "-180", "90", "180"}
+				case "NEARBY":
+					area = []string{"POINT", "0", "0"}
+				}
+				for _, f := range filters {
+					for _, lim := range []string{"", "1", "2", "3", "100"} {
+						caseNo++
+						if caseNo%job.NShards != job.Shard {
+							continue
 						}
-						ltag := "nolimit"
+						base := []string{cmd, "mix"}
 						if lim != "" {
-							ltag = "limit"
+							base = append(base, "LIMIT", lim)
 						}
-						res.Violate(fmt.Sprintf("C12/count-vs-ids:%s:%s:%s", strings.ToLower(cmd), ftag, ltag),
-							fmt.Sprintf("%v COUNT -> %s but IDS returns %d items %v", base, cv, len(ids), ids), map[string]any{"query": base})
-					}
-					if (cmd == "SCAN" || cmd == "SEARCH") && lim == "" {
-						asc := listOf(c.Do(append(append([]string{}, base...), "ASC", "IDS")...))
-						desc := listOf(c.Do(append(append([]string{}, base...), "DESC", "IDS")...))
-						r := append([]string(nil), asc...)
-						for i, j := 0, len(r)-1; i < j; i, j = i+1, j-1 {
-							r[i], r[j] = r[j], r[i]
+						base = append(base, f...)
+						ids := listOf(c.Do(append(append(append([]string{}, base...), "IDS"), area...)...))
+						cv := c.Do(append(append(append([]string{}, base...), "COUNT"), area...)...)
+						res.Evaluations++
+						res.DistinctS(fmt.Sprint("count", phase, cmd, len(f), lim, len(ids)))
+						if cv.String() != ":"+strconv.Itoa(len(ids)) {
+							ftag := "nofilter"
+							if len(f) > 0 {
+								ftag = strings.ToLower(f[0])
+							}
+							ltag := "nolimit"
+							if lim != "" {
+								ltag = "limit"
+							}
+							res.Violate(fmt.Sprintf("C12/count-vs-ids:%s:%s:%s", strings.ToLower(cmd), ftag, ltag),
+								fmt.Sprintf("%v COUNT -> %s but IDS returns %d items %v", base, cv, len(ids), ids), map[string]any{"query": base})
 						}
-						if strings.Join(r, " ") != strings.Join(desc, " ") {
-							res.Violate("C12/desc-not-reverse-of-asc:"+strings.ToLower(cmd), fmt.Sprintf("%v ASC -> %v, DESC -> %v", base, asc, desc), map[string]any{"query": base})
+						if (cmd == "SCAN" || cmd == "SEARCH") && lim == "" {
+							asc := listOf(c.Do(append(append([]string{}, base...), "ASC", "IDS")...))
+							desc := listOf(c.Do(append(append([]string{}, base...), "DESC", "IDS")...))
+							r := append([]string(nil), asc...)
+							for i, j := 0, len(r)-1; i < j; i, j = i+1, j-1 {
+								r[i], r[j] = r[j], r[i]
+							}
+							if strings.Join(r, " ") != strings.Join(desc, " ") {
+								res.Violate("C12/desc-not-reverse-of-asc:"+strings.ToLower(cmd), fmt.Sprintf("%v ASC -> %v, DESC -> %v", base, asc, desc), map[string]any{"query": base})
+							}
 						}
 					}
 				}
